@@ -3,6 +3,8 @@ from __future__ import annotations
 
 import math
 
+import asyncio
+
 from sim.net import World
 from . import common as C
 from . import decoding as D
@@ -30,7 +32,7 @@ TECHNIQUE = "deterministic simulation: frozen peer, bulk read vs single read for
 FILLS = [("zero", 0), ("ff", 0), ("bound", 1), ("bound", 2), ("hash", 1), ("hash", 2), ("step", 3), ("step", 4),
          ("sp32a", 1), ("sp32b", 1)]
 HISTORIES = ["plain", "battery_off_on", "battery_on_off", "single_first", "before_info", "settings_first",
-             "refused_block_first", "settings_refused_first"]
+             "refused_block_first", "settings_refused_first", "concurrent_singles"]
 REPS = {"quick": 1, "thorough": 48}
 _SPACE = {}
 
@@ -109,7 +111,15 @@ def run_case(case):
                 continue  # registers the peer does not have (sensor behind the fetched window): C14's subject
             stats["ids"] += 1
             try:
-                v = await inv.read_sensor(sid)
+                if h == "concurrent_singles":
+                    # two callers ask for the same id at the same time: both get the value (the second is compared)
+                    a, v = await asyncio.gather(inv.read_sensor(sid), inv.read_sensor(sid), return_exceptions=True)
+                    if isinstance(a, BaseException):
+                        raise a
+                    if isinstance(v, BaseException):
+                        raise v
+                else:
+                    v = await inv.read_sensor(sid)
             except NotImplementedError as e:
                 add(f"C16:not-implemented:{cls}", f"{fam}/{var}/{tr} {label}: read_sensor({sid!r}) raised NotImplementedError")
                 continue
